@@ -23,7 +23,8 @@ RULE = (
     "Hypothesis draws a 12^3 (thorough: 11..14 per axis) vacuum volume, one continuous two-material Device box "
     "(eps 2.0 .. 12.25, one design voxel per cell, no parameter transforms; parameters constant or seeded random in "
     "[0,1]) and 1..2 objects under test: an electric/magnetic point dipole (a single cell), a uniform plane "
-    "source or a Gaussian mode-overlap detector (one cell thick along a drawn axis, any box across). On every axis the object's "
+    "source or a Gaussian mode-overlap detector (one cell thick along a drawn axis, any box across), or a TFSF box "
+    "source (no thin axis; overlapping, containing, contained in or merely touching the device). On every axis the object's "
     "interval is constructed in a drawn Allen relation to the device's interval (before, meets, overlaps, starts, "
     "during, finishes, equals, contains, started-by, finished-by, overlapped-by, met-by, after); three templates "
     "bias the draw: strictly inside on all axes, intersecting on all axes, free. Non-trivial = the object's box "
@@ -130,11 +131,15 @@ def case_strategy(draw, ctx):
         {"mode": "seed", "seed": draw(st.integers(0, 2 ** 31 - 1))}
     objs = []
     for k in range(draw(st.integers(1, 2))):
-        typ = draw(st.sampled_from(["dipole_e", "dipole_e", "dipole_m", "plane", "gauss_det"]))
+        typ = draw(st.sampled_from(["dipole_e", "dipole_e", "dipole_m", "plane", "gauss_det", "tfsf", "tfsf"]))
         template = draw(st.sampled_from(["intersect", "intersect", "free", "intersect", "free", "intersect", "free", "inside"]))
         o = {"type": typ, "name": f"{typ}{k}", "template": template}
         thin_axis = None
-        if typ in ("plane", "gauss_det"):
+        if typ == "tfsf":  # a box source: no thin axis; its faces sample the material one cell beyond the box
+            o["axis"] = draw(st.integers(0, 2))
+            o["direction"] = draw(st.sampled_from(["+", "-"]))
+            o["pol_axis"] = draw(st.sampled_from([a for a in range(3) if a != o["axis"]]))
+        elif typ in ("plane", "gauss_det"):
             thin_axis = draw(st.integers(0, 2))
             o["axis"] = thin_axis
             o["direction"] = draw(st.sampled_from(["+", "-"]))
@@ -149,8 +154,14 @@ def case_strategy(draw, ctx):
                 rels.append("during")
             elif template == "intersect":
                 rels.append(draw(st.sampled_from([r for r in INTERSECTING if not thin or r in THIN])))
+            elif typ == "tfsf":  # touching boxes read device cells too; far-away boxes are of no interest here
+                rels.append(draw(st.sampled_from(INTERSECTING)))
             else:
                 rels.append(draw(st.sampled_from(THIN if thin else ALLEN)))
+        if typ == "tfsf" and template != "inside" and draw(st.booleans()):
+            # half of the box sources only touch the device along one axis (box ends where the device starts or
+            # starts where it ends) while intersecting it across
+            rels[draw(st.integers(0, 2))] = draw(st.sampled_from(["meets", "met_by"]))
         if template != "inside" and all(r == "during" for r in rels):
             # keep the strictly-inside class (finding F3) to the "inside" template so its share stays controlled
             a = draw(st.integers(0, 2))
@@ -161,6 +172,8 @@ def case_strategy(draw, ctx):
             n, (d0, d1) = shape[a], dev[a]
             thin = a == thin_axis or typ.startswith("dipole")
             iv.append(draw(thin_interval(n, d0, d1, rels[a]) if thin else allen_interval(n, d0, d1, rels[a])))
+        if typ == "tfsf":  # the face nodes one cell outside the box must exist (no relation above is changed by this)
+            iv = [[max(a0, 1), min(a1, shape[a] - 1)] for a, (a0, a1) in enumerate(iv)]
         o["iv"] = iv
         objs.append(o)
     case = {"shape": shape, "device": dev, "param": param, "objects": objs}
@@ -175,6 +188,7 @@ STATE_FIELDS = {
     "dipole_m": ("_inv_eps_local", "_inv_mu_local", "_inv_eps_oriented", "_inv_mu_oriented"),
     "plane": ("_E", "_H", "_time_offset_E", "_time_offset_H"),
     "gauss_det": ("_mode_E", "_mode_H", "_mode_neff"),
+    "tfsf": ("_face_incident_E", "_face_incident_H", "_face_time_offset_E", "_face_time_offset_H", "_face_H_filter"),
 }
 
 
@@ -221,7 +235,10 @@ def body(ctx, case):
         else:
             pol = [0.0, 0.0, 0.0]
             pol[o["pol_axis"]] = 1.0
-            if o["type"] == "plane":
+            if o["type"] == "tfsf":
+                ob = fdtdx.TFSFPlaneSourceRegion(name=o["name"], wave_character=wave, direction=o["direction"],
+                                                 propagation_axis=o["axis"], fixed_E_polarization_vector=tuple(pol))
+            elif o["type"] == "plane":
                 ob = fdtdx.UniformPlaneSource(name=o["name"], wave_character=wave, direction=o["direction"],
                                               fixed_E_polarization_vector=tuple(pol))
             else:
@@ -265,6 +282,10 @@ def body(ctx, case):
         rels = [classify_relation(o["iv"][a], case["device"][a]) for a in range(3)]
         rel_of[o["name"]] = rels
         inter = all(r in INTERSECTING for r in rels)
+        if o["type"] == "tfsf":  # closed-interval intersection: a box face on the device's first/last layer reads it
+            inter = all(r in INTERSECTING + ("meets", "met_by") for r in rels)
+            if not all(r in INTERSECTING for r in rels):
+                ctx.classify("tfsf-touching-only")
         ctx.classify("type=" + o["type"], "intersects" if inter else "disjoint",
                      *("rel=" + r for r in sorted(set(rels))))
         if all(r == "during" for r in rels):
@@ -291,6 +312,16 @@ def body(ctx, case):
             a, b = getattr(got, f), getattr(ref, f)
             ctx.check(not isinstance(a, Null) and a is not None,
                       f"{o['name']}.{f} was never set up: {where}", observed=repr(a)[:40])
+            if isinstance(b, (tuple, list)):  # per-face state of a box source
+                ctx.check(isinstance(a, (tuple, list)) and len(a) == len(b),
+                          f"{o['name']}.{f}: number of faces differs from a fresh set-up: {where}")
+                for fi, (x, y) in enumerate(zip(a, b)):
+                    if x is None and y is None:
+                        continue
+                    ctx.close(np.asarray(x), np.asarray(y), tol=tol, metric="state_err",
+                              msg=f"{o['name']}.{f}[face {fi}] differs from a set-up against the post-device "
+                                  f"materials: {where}")
+                continue
             ctx.close(np.asarray(a), np.asarray(b), tol=tol, metric="state_err",
                       msg=f"{o['name']}.{f} differs from a set-up against the post-device materials: {where}")
 
